@@ -2066,3 +2066,95 @@ SUITES['C02'] = dict(gen=gen_C02, oracle=oracle_C02, files=['src'],
                           'caller-code invocations (quick: a sample of k incl. first and last): the k-th invocation of Default/Clone/Drop/PartialEq/Display/Debug/operator/closure/accessor '
                           'panics, the unwind is caught, every surviving matrix is probed (coherence, ledger, double drops) and then used and dropped; non-trivial = the fault fired',
                      assumptions=['std unwinding behaviour (SetLenOnDrop, in-place collect, slice drop continuing after a panicking drop) and rayon panic propagation are observed, not proved'])
+
+
+# =============================================================================================
+# C17: Send / Sync of the mutable vector iterators (decided by rustc inside the harness build) and
+#      rows / columns mutated concurrently on different threads
+def gen_C17(rng, tier, changed):
+    cases = [KCase('C17-traits', 'autotraits', [], meta=dict(want=None))]
+    k = 0
+    shapes = [(1, 1), (2, 3), (3, 2), (5, 4), (4, 16), (16, 3), (1, 9), (9, 1), (0, 3), (3, 0), (24, 24)] + ([(40, 50)] if tier != 'quick' else [])
+    for (r, c) in shapes:
+        for order in (0, 1):
+            for axis in (0, 1):
+                for nthreads in ((1, 2, 3, 4, 8, 16) if tier != 'quick' else rng.sample([1, 2, 3, 4, 8, 16], 2)):
+                    sh = Shadow()
+                    ops = build(sh, 0, r, c, order, how='rowreshape')
+                    ops += [op('clone', 1, 0), op('threaded_vectors_mut', 0, nthreads, 1, axis), op('apply', 1, 1), op('eq', 0, 1),
+                            op('threaded_vectors_mut', 0, nthreads, 2, 1 - axis)]
+                    cases.append(Case(f'C17-{k}', ops, rng.choice(['tr', 'tr', 'w24', 'zd'])))
+                    k += 1
+    return cases
+
+
+def oracle_C17(case, hlines):
+    out = []
+    ops = [o for o in case.ops if o[1] != 'fault']
+    for i, (o, line) in enumerate(zip(ops, hlines)):
+        if o[1] == 'eq' and obs_of(line) != 'true' and case.elem in ('tr', 'w24'):
+            out.append(dict(kind='oracle', op_index=i, op='threaded_vectors_mut', observed=obs_of(line), expected='true',
+                            detail='mutating distinct rows/columns on several threads differs from doing the same sequentially'))
+    return out
+
+
+SUITES['C17'] = dict(gen=gen_C17, oracle=oracle_C17, files=['src/iter/iter_mut.rs', 'src/iter.rs'],
+                     rule='rustc decides Send/Sync for 6 iterator types x 4 element classes (i32, Cell<i32>, MutexGuard<i32>, Rc<i32>) while compiling the harness against the current tree; '
+                          'rows and columns of shapes with more vectors than threads and fewer dealt to 1..16 threads, per-thread address sets checked disjoint, result compared with the sequential run',
+                     assumptions=['rustc\'s trait solver and the hardware memory model are outside the model; a data race is only observable through its effect on the final contents or the address sets'])
+
+
+# =============================================================================================
+# C18: scalar operators of the 14 primitive element types, and the generic scalar_operation family
+PRIMS = ['u8', 'u16', 'u32', 'u64', 'u128', 'usize', 'i8', 'i16', 'i32', 'i64', 'i128', 'isize', 'f32', 'f64']
+
+
+def gen_C18(rng, tier, changed):
+    cases = []
+    for t in range(14):
+        for o in range(5):
+            want = 'S:' + '.'.join(str(ord(ch)) for ch in ('B' * 18 if o in (0, 2) else 'LLRRLLRRLLRRLLRRLL'))
+            cases.append(KCase(f'C18-{PRIMS[t]}-{o}', 'scalar_forms', [t, o], meta=dict(want=want)))
+        if t >= 6:
+            cases.append(KCase(f'C18-{PRIMS[t]}-neg', 'scalar_neg', [t], meta=dict(want='S:76.76')))
+    k = 0
+    for (r, c) in [(0, 0), (1, 1), (2, 3), (3, 2), (0, 2), (2, 0), (1, 4), (4, 1)]:
+        for order in (0, 1):
+            sh = Shadow()
+            ops = build(sh, 0, r, c, order, how='rowreshape')
+            for f in range(3):
+                ops += [op('sc', 1, 0, 500 + f, f), op('clone', 2, 0), op('sc_consume', 3, 2, 600 + f, f), op('clone', 2, 0), op('sc_assign', 2, 700 + f, f)]
+            ops += [op('neg_ref', 1, 0), op('clone', 2, 0), op('neg', 3, 2)]
+            cases.append(Case(f'C18-g{k}', ops, rng.choice(['tr', 'tr', 'zd'])))
+            k += 1
+    return cases
+
+
+def oracle_C18(case, hlines):
+    out = []
+    if case.elem != 'tr':
+        return out
+    ops = [o for o in case.ops if o[1] != 'fault']
+    prev = None
+    for i, (o, line) in enumerate(zip(ops, hlines)):
+        if prev is not None and o[1] in ('sc', 'sc_consume', 'sc_assign', 'neg', 'neg_ref'):
+            a_ = o[2]
+            if o[1] == 'sc_assign':
+                d, x, v, f = a_[0], a_[0], a_[1], a_[2]
+            elif o[1] in ('neg', 'neg_ref'):
+                d, x, v, f = a_[0], a_[1], None, None
+            else:
+                d, x, v, f = a_
+            src, res = parse_slot(prev, x), parse_slot(line, d)
+            if src and res:
+                want = [f'(U0 {e})' if v is None else f'(B{10 + f} {e} a{v})' for e in src[3]]
+                if res[:3] != src[:3] or res[3] != want:
+                    out.append(dict(kind='oracle', op_index=i, op=o[1], observed=str(res)[:300], expected=str(want)[:300],
+                                    detail='not (element op scalar) per element in the same shape and order'))
+        prev = line
+    return out
+
+
+SUITES['C18'] = dict(gen=gen_C18, oracle=oracle_C18, files=['src/arithmetic/add.rs', 'src/arithmetic/sub.rs', 'src/arithmetic/mul.rs', 'src/arithmetic/div.rs', 'src/arithmetic/rem.rs', 'src/arithmetic/neg.rs', 'src/arithmetic.rs'],
+                     rule='14 primitive types x 5 operators x 18 operand forms (1260 impls) + negation, each instantiated in the harness and classified by the operand order its result matches '
+                          '(witness operands chosen per operator so that the orders differ for - / %), on four shapes and both orders; the generic scalar_operation family with recording closures')
